@@ -40,9 +40,7 @@ def get_file_metadata(path, hashes):
     try:
         # we want O_NONBLOCK to avoid blocking when opening pipes
         fd = os.open(path, os.O_RDONLY | os.O_NONBLOCK)
-    except (FileNotFoundError, NotADirectoryError):
-        # NB: ENOTDIR = a component of the path is not a directory
-        # (any more), so the file cannot exist either
+    except FileNotFoundError:
         exists = False
         opened = False
     except OSError as err:
@@ -170,7 +168,15 @@ def verify_path(path, e, expected_dev=None, last_mtime=None):
 
     with contextlib.closing(get_file_metadata(path, checksums)) as g:
         # 1. verify whether the file existed in the first place
-        exists = next(g)
+        try:
+            exists = next(g)
+        except NotADirectoryError:
+            # ENOTDIR = a component of the path is not a directory
+            # (any more): a file that is expected there is missing;
+            # when nothing is expected, something else is going on
+            if not expect_exist:
+                raise
+            exists = False
         if exists != expect_exist:
             return (False, [('__exists__', expect_exist, exists)])
         elif not exists:
